@@ -4,5 +4,7 @@ import ThriftVerif.Facts.ExpectGen
 #print axioms ThriftVerif.Properties.C15.noninterference
 #print axioms ThriftVerif.Properties.C15.redacted_shows_marker_only
 #print axioms ThriftVerif.Properties.C15.nolog_absent
+#print axioms ThriftVerif.Properties.C15.redacted_content_irrelevant
+#print axioms ThriftVerif.Properties.C15.nolog_content_irrelevant
 #print axioms ThriftVerif.Properties.C15.others_present
 #print axioms ThriftVerif.Facts.ExpectGen.redaction_facts_ok
